@@ -26,7 +26,19 @@ A labelled transition system.  One label = one atomic section of the Go code:
 * `serverClose` the server closes the session itself (`ServerSession.Close`, keep-alive failure).
 * `closeDone`   `conn.Close()` completes (possible once no handler is in flight), the session is
                 disconnected from `Server.sessions`, and `onClose` (under `h.mu`) stops the timer for
-                good and deletes the map entry.  (DESIGN §5 C11: modelled as one label.)
+                good and deletes the map entry.  (DESIGN §5 C11: modelled as one label.)  Closing the
+                connection may *report an error* (`streamableServerConn.Close` returns what
+                `EventStore.SessionClosed` returned); `ServerSession.Close` hands that error to its
+                caller **after** running `onClose` (structural fact `sessions.close_runs_onclose`), so
+                the label removes the entry on the error outcome exactly as on the normal one and only
+                records the error (`closeErr`).
+* `faults f`    the environment: from now on the methods of the configured `EventStore` named by `f`
+                fail.  The collaborator's outcomes are an input of the session layer, like the clock.
+                With a failing `Open` the transport refuses a creating POST at `Connect` (the id was
+                minted, no session ever exists) or answers a POST that carries a call with an error
+                status after the session layer has let it through; with a failing `After` a GET is
+                answered with an error status by the transport; a failing `Append` changes nothing
+                at this layer.
 
 Removed entries stay in the model's table, flagged `removed` (server-side session closed and
 forgotten, `onClose` done); `inMap` says whether the id is a key of `h.sessions`.  Keeping the history
@@ -54,6 +66,9 @@ def stMissingIdDelete : Nat := Generated.Sessions.serveStatefulDELETEMissingID
 def stDeleted : Nat := Generated.Sessions.deleteOK
 def stStatelessNotPost : Nat := Generated.Sessions.statelessNotPost
 def stOtherMethod : Nat := Generated.Sessions.statefulOtherMethod
+def stConnectFailed : Nat := Generated.Sessions.connectFailed
+def stStoreOpenFailed : Nat := Generated.Sessions.storeOpenFailed
+def stReplayFailed : Nat := Generated.Sessions.replayFailed
 
 /-- The user id of the request's `TokenInfo`; `none` = no `TokenInfo` or an empty `UserID`. -/
 abbrev User := Option Nat
@@ -66,6 +81,20 @@ deriving DecidableEq, Repr
 def Kind.isInitialize : Kind → Bool
   | .init | .badInit => true
   | _ => false
+
+/-- The POST carries a call (so the transport opens a logical stream for its answer). -/
+def Kind.hasCall : Kind → Bool
+  | .notif => false
+  | _ => true
+
+/-- Which methods of the configured `EventStore` currently fail (chosen by the environment). -/
+structure Faults where
+  closed : Bool := false     -- `SessionClosed` returns an error: closing the connection reports it
+  connOpen : Bool := false   -- `Open` of the standalone stream fails: `Transport.Connect` fails
+  reqOpen : Bool := false    -- `Open` of a request's stream fails
+  append : Bool := false     -- `Append` fails
+  after : Bool := false      -- `After` (replay) fails
+deriving DecidableEq, Repr
 
 /-- `sessionInfo.timer`: `nil` (no timeout configured, or stopped for good by `stopTimer`),
 a stopped/expired timer object, or an armed one with its deadline. -/
@@ -92,12 +121,14 @@ structure Sess where
   initBusy : Nat          -- `initialize` handlers in flight
   posts : Nat             -- ghost: POSTs in progress on this session
   idleSince : Nat         -- ghost: instant at which `refs` last dropped to 0
+  closeErr : Bool         -- closing the connection reported an error: what every `Close()` returns
 deriving DecidableEq, Repr
 
 structure Cfg where
   stateless : Bool
   timeout : Nat           -- `SessionTimeout` in ms; 0 = none
   publishChecks : Bool := true  -- F20: the publication skips a session whose `onClose` has already run
+  eventStore : Bool := false    -- `StreamableHTTPOptions.EventStore` is set
 deriving DecidableEq, Repr
 
 structure State where
@@ -106,9 +137,16 @@ structure State where
   next : Nat              -- number of ids minted so far
   tbl : List Sess
   eph : Nat               -- stateless: temporary sessions in progress
+  faults : Faults         -- environment: the event store's methods that currently fail
 deriving DecidableEq, Repr
 
-def init (cfg : Cfg) : State := { cfg := cfg, now := 0, next := 0, tbl := [], eph := 0 }
+def init (cfg : Cfg) : State := { cfg := cfg, now := 0, next := 0, tbl := [], eph := 0, faults := {} }
+
+/-- Without an event store nothing can fail. -/
+def State.connectFails (s : State) : Bool := s.cfg.eventStore && s.faults.connOpen
+def State.openFails (s : State) : Bool := s.cfg.eventStore && s.faults.reqOpen
+def State.closeFails (s : State) : Bool := s.cfg.eventStore && s.faults.closed
+def State.replayFails (s : State) : Bool := s.cfg.eventStore && s.faults.after
 
 inductive Label where
   | postBegin (sid : Option Nat) (u : User) (k : Kind)
@@ -122,6 +160,7 @@ inductive Label where
   | timerFire (sid : Nat)
   | serverClose (sid : Nat)
   | closeDone (sid : Nat)
+  | faults (f : Faults)
 deriving DecidableEq, Repr
 
 /-- What the session layer does with a request. -/
@@ -132,6 +171,9 @@ inductive Resp where
                                                   -- `Mcp-Session-Id` response header; `deliver` = the
                                                   -- server session still accepts the message
   | stream                                        -- GET handed to the session's transport
+  | storeRefused (status : Nat)                   -- the session layer let the request through; the
+                                                  -- transport answered with an error status because
+                                                  -- the event store failed
   | closeAccepted                                 -- DELETE accepted: `Close()` called, then 204
 deriving DecidableEq, Repr
 
@@ -168,15 +210,26 @@ def startTimer (e : Sess) : Sess :=
   | .nil => { e with posts := e.posts + 1 }
   | t => { e with posts := e.posts + 1, refs := e.refs + 1, timer := if e.refs = 0 then .stopped else t }
 
-/-- Hand-over of the message to the server session (refused once `Close` has begun). -/
-def deliver (k : Kind) (e : Sess) : Sess :=
-  if e.closing then e
+/-- Hand-over of the message to the server session.  Once `Close` has begun no handler is started any
+more: the connection answers a new call itself (server closing) — and since the F26 repair of the write
+gate that answer, like the answer of a handler admitted before the close, *is* delivered, so the POST is
+answered and ends instead of hanging until the session is gone.  `ok = false`: the transport could not
+open the stream for the answer and hands nothing over. -/
+def deliver (ok : Bool) (k : Kind) (e : Sess) : Sess :=
+  if e.closing || !ok then e
   else match k with
     | .init => { e with initBusy := e.initBusy + 1 }
     | .badInit | .call => { e with busy := e.busy + 1 }
     | .notif => e
 
-def startPost (k : Kind) (e : Sess) : Sess := deliver k (startTimer e)
+def startPost (ok : Bool) (k : Kind) (e : Sess) : Sess := deliver ok k (startTimer e)
+
+/-- The transport can open the stream a POST of kind `k` needs. -/
+def State.accepts (s : State) (k : Kind) : Bool := !(k.hasCall && s.openFails)
+
+/-- What the transport answers to a POST that the session layer let through. -/
+def postResp (s : State) (k : Kind) (hdr : Option Nat) (closing : Bool) : Resp :=
+  if s.accepts k then .forward hdr (!closing) else .storeRefused stStoreOpenFailed
 
 /-- `endPOST`, then (creating POST only) the failed-initialize cleanup. -/
 def endPost (now timeout : Nat) (creator : Bool) (e : Sess) : Option Sess :=
@@ -210,16 +263,24 @@ def timerFireF (now : Nat) (e : Sess) : Option Sess :=
 def closeF (e : Sess) : Option Sess :=
   if e.removed then none else some { e with closing := true }
 
-def closeDoneF (e : Sess) : Option Sess :=
+/-- `err`: closing the connection reported an error.  The entry is removed all the same. -/
+def closeDoneF (err : Bool) (e : Sess) : Option Sess :=
   if e.removed || !e.closing || e.busy ≠ 0 || e.initBusy ≠ 0 then none
-  else some { e with removed := true, inMap := false, timer := .nil }
+  else some { e with removed := true, inMap := false, timer := .nil, closeErr := err }
 
 /-- `Server.Connect` on the creation path: the server session exists, nothing is published yet. -/
 def newSess (s : State) (u : User) (k : Kind) : Sess :=
   { id := s.next, owner := u, refs := 0, timer := .nil,
     closing := false, removed := false, inMap := false, pending := some k,
     initialized := false, creating := true, busy := 0, initBusy := 0,
-    posts := 1, idleSince := s.now }
+    posts := 1, idleSince := s.now, closeErr := false }
+
+/-- `Transport.Connect` failed on the creation path: the id was minted, no session ever exists. -/
+def failedSess (s : State) (u : User) : Sess :=
+  { id := s.next, owner := u, refs := 0, timer := .nil,
+    closing := true, removed := true, inMap := false, pending := none,
+    initialized := false, creating := false, busy := 0, initBusy := 0,
+    posts := 0, idleSince := s.now, closeErr := false }
 
 /-- `time.AfterFunc`, insertion into `h.sessions`, `startPOST` (which stops the fresh timer). -/
 def publishedSess (timeout : Nat) (e : Sess) : Sess :=
@@ -228,15 +289,18 @@ def publishedSess (timeout : Nat) (e : Sess) : Sess :=
            refs := (if timeout = 0 then 0 else 1) }
 
 /-- The rest of the creation path: timer, publication under `h.mu`, `startPOST`, hand-over. -/
-def publishF (checks : Bool) (timeout : Nat) (e : Sess) : Option Sess :=
+def publishF (checks : Bool) (timeout : Nat) (ok : Bool) (e : Sess) : Option Sess :=
   match e.pending with
   | none => none
   | some k =>
     if checks && e.removed then some { e with pending := none }
-    else some (deliver k (publishedSess timeout e))
+    else some (deliver ok k (publishedSess timeout e))
 
 def stepStateless (s : State) : Label → Option (State × Resp)
-  | .postBegin _ _ _ => some ({ s with eph := s.eph + 1 }, .forward none true)
+  | .postBegin _ _ k =>
+    if s.connectFails then some (s, .reject stConnectFailed)
+    else some ({ s with eph := s.eph + 1 }, postResp s k none false)
+  | .faults f => some ({ s with faults := f }, .tau)
   | .postEnd none _ => if s.eph = 0 then none else some ({ s with eph := s.eph - 1 }, .tau)
   | .get _ _ => some (s, .reject stStatelessNotPost)
   | .delete _ _ => some (s, .reject stStatelessNotPost)
@@ -246,21 +310,28 @@ def stepStateless (s : State) : Label → Option (State × Resp)
 
 def stepStateful (s : State) : Label → Option (State × Resp)
   | .postBegin none u k =>
-    some ({ s with tbl := s.tbl ++ [newSess s u k], next := s.next + 1 }, .tau)
+    if s.connectFails then
+      some ({ s with tbl := s.tbl ++ [failedSess s u], next := s.next + 1 }, .reject stConnectFailed)
+    else
+      some ({ s with tbl := s.tbl ++ [newSess s u k], next := s.next + 1 }, .tau)
   | .publish i =>
-    match findSess i s.tbl, modify i (publishF s.cfg.publishChecks s.cfg.timeout) s.tbl with
-    | some e, some t =>
-      some ({ s with tbl := t },
-            .forward (match e.pending with | some k => if k.isInitialize then some i else none | none => none)
-                     (!e.closing))
-    | _, _ => none
+    match findSess i s.tbl with
+    | some e =>
+      match e.pending with
+      | some k =>
+        match modify i (publishF s.cfg.publishChecks s.cfg.timeout (s.accepts k)) s.tbl with
+        | some t =>
+          some ({ s with tbl := t }, postResp s k (if k.isInitialize then some i else none) e.closing)
+        | none => none
+      | none => none
+    | none => none
   | .postBegin (some i) u k =>
     match lookup s.tbl i u with
     | .error st => some (s, .reject st)
     | .ok e =>
-      match modify i (fun x => some (startPost k x)) s.tbl with
+      match modify i (fun x => some (startPost (s.accepts k) k x)) s.tbl with
       | none => none
-      | some t => some ({ s with tbl := t }, .forward (if k.isInitialize then some i else none) (!e.closing))
+      | some t => some ({ s with tbl := t }, postResp s k (if k.isInitialize then some i else none) e.closing)
   | .handlerDone i isInit =>
     match modify i (handlerDoneF isInit) s.tbl with
     | none => none
@@ -274,7 +345,7 @@ def stepStateful (s : State) : Label → Option (State × Resp)
   | .get (some i) u =>
     match lookup s.tbl i u with
     | .error st => some (s, .reject st)
-    | .ok _ => some (s, .stream)
+    | .ok _ => if s.replayFails then some (s, .storeRefused stReplayFailed) else some (s, .stream)
   | .delete none _ => some (s, .reject stMissingIdDelete)
   | .delete (some i) u =>
     match lookup s.tbl i u with
@@ -294,9 +365,10 @@ def stepStateful (s : State) : Label → Option (State × Resp)
     | none => none
     | some t => some ({ s with tbl := t }, .tau)
   | .closeDone i =>
-    match modify i closeDoneF s.tbl with
+    match modify i (closeDoneF s.closeFails) s.tbl with
     | none => none
     | some t => some ({ s with tbl := t }, .tau)
+  | .faults f => some ({ s with faults := f }, .tau)
 
 /-- One label. `none` = the label is not enabled in `s`. -/
 def step (s : State) (l : Label) : Option (State × Resp) :=
